@@ -235,6 +235,10 @@ func (ms *MultiSorter) Swap(i, j int) {
 // could change the functions to return -1, 0, 1 and reduce the
 // number of calls for greater efficiency: an exercise for the reader.
 func (ms *MultiSorter) Less(i, j int) bool {
+	if len(ms.less) == 0 {
+		// no keys: all nodes are equal, and every order is sorted.
+		return false
+	}
 	p, q := ms.nodes[i], ms.nodes[j]
 	// Try all but the last comparison.
 	var k int
